@@ -1541,6 +1541,9 @@ func (t *Tree) Annotate(names [][]string, comment bool) error {
 			if err != nil {
 				return err
 			}
+			if n == nil {
+				return fmt.Errorf("no common ancestor found for the tips of line %s (names must be current tip names)", line[0])
+			}
 			if comment {
 				n.AddComment(line[0])
 			} else {
